@@ -62,12 +62,17 @@ from .. import core
 # file id -> series-name ids; file 9 does not exist.  Files 4 and 5 have the SAME file name at two depths (run.ts, sub/run.ts) and share a
 # series name (7): their list labels are 'run.ts/qg' and 'sub/run.ts/qg', only the full keys tell them apart.
 # Series (2,5) has min == 0.0 and series (3,6) has max == 0.0 exactly (statistics that are exactly zero must be shown as 0, not nan).
-CATALOGUE = {1: [1, 2, 3], 2: [4, 5], 3: [6], 4: [7, 8], 5: [7, 9]}
-FNAME = {1: "f1.ts", 2: "f2.ts", 3: "f3.ts", 4: "run.ts", 5: "sub/run.ts", 9: "f9.ts"}
+CATALOGUE = {1: [1, 2, 3], 2: [4, 5], 3: [6], 4: [7, 8], 5: [7, 9], 6: [10, 11]}
+FNAME = {1: "f1.ts", 2: "f2.ts", 3: "f3.ts", 4: "run.ts", 5: "sub/run.ts", 6: "f6.ts", 9: "f9.ts"}
+# file 6: two series whose names differ only in letter case, on a NON-UNIFORM time array (dense first, then sparse: the time windows
+# lie in the sparse part, where a window holds fewer stored samples than samples after resampling to the average step)
+SNAME = {10: "Heave", 11: "heave"}
 FID = {v: k for k, v in FNAME.items()}
 CAT_TOKEN = ";".join("%d:%s" % (f, ",".join(map(str, ns))) for f, ns in sorted(CATALOGUE.items()))
 MISSING = 9
-TWINS = [(0.0, 1_000_000_000.0), (10.0, 100.0), (20.5, 70.25)]
+# (the upper limit 70.3 of the third window lies 3e-6 BELOW a stored sample time: .ts files hold the time array in single precision,
+# float32(70.3) = 70.30000305, so that sample is outside the window -- limits are closed intervals of what the user typed, nothing wider)
+TWINS = [(0.0, 1_000_000_000.0), (10.0, 100.0), (20.5, 70.3)]
 FILTS = [None, ("lp", 1.0), ("hp", 0.5)]
 NBINS = 12
 NPERSEG = 20000
@@ -78,7 +83,7 @@ SET_NPERSEG = (256, 100)
 SET_NBINS = (25, 10)
 # file id -> (number of samples, time step): the files do NOT share a time array -- series of one request differ in length (in file order
 # shorter-then-longer: 1,2 / 4,5 / 3,1 and longer-then-shorter: 2,3 / 5,4 ...) and in time step (file 3), also inside the time windows
-GRID = {1: (1000, 0.1), 2: (1200, 0.1), 3: (700, 0.2), 4: (900, 0.1), 5: (1300, 0.1)}
+GRID = {1: (1000, 0.1), 2: (1200, 0.1), 3: (700, 0.2), 4: (900, 0.1), 5: (1300, 0.1), 6: (1000, None)}
 # containers of several series as one request hands them to the calculation workers: short before long, long before short, mixed time steps
 CONTAINERS = [[(3, 6), (1, 1), (2, 4)], [(5, 9), (4, 8), (3, 6)], [(1, 2), (1, 3), (4, 7), (5, 7), (2, 5)]]
 DISP = ("R", "Ct", "Cs", "Cp", "Cr")
@@ -97,7 +102,7 @@ def fname(f):
 
 
 def sname(n):
-    return "q" + chr(96 + n)
+    return SNAME.get(n) or "q" + chr(96 + n)
 
 
 NAMEID = {sname(n): n for ns in CATALOGUE.values() for n in ns}
@@ -189,7 +194,10 @@ class Env:
         with contextlib.redirect_stdout(io.StringIO()):
             for f, names in CATALOGUE.items():
                 db = TsDB()
-                t = np.arange(GRID[f][0]) * GRID[f][1]
+                if GRID[f][1] is None:
+                    t = np.concatenate([np.arange(400) * 0.05, 20.0 + np.arange(GRID[f][0] - 400) * 0.2])
+                else:
+                    t = np.arange(GRID[f][0]) * GRID[f][1]
                 for n in names:
                     om, ph, am = rng.uniform(1.6, 4.4, 24), rng.uniform(0, 2 * np.pi, 24), rng.uniform(0.2, 1.0, 24)
                     x = (am[:, None] * np.sin(om[:, None] * t[None, :] + ph[:, None])).sum(axis=0) * (0.5 + 0.1 * n) + \
@@ -1281,7 +1289,7 @@ def random_history(run, rng, maxdisp):
     env = run.env
     loaded = set()
     style = rng.choice(["serial", "serial", "mixed", "mixed", "wild"])
-    first = rng.choice([[1], [2], [3], [1, 2], [1, 3], [2, 1, 3], [4, 5], [5], [5, 4, 2], [4]])
+    first = rng.choice([[1], [2], [3], [1, 2], [1, 3], [2, 1, 3], [4, 5], [5], [5, 4, 2], [4], [6], [6], [6, 1], [3, 6]])
     run.do(("imp:" if rng.random() < 0.85 else "drop:") + ",".join(map(str, first)))
     run.do("cmp:0")
     dialog = rng.random() < 0.4         # this user opens File > Settings now and then (only while no display request is being processed)
@@ -1305,7 +1313,9 @@ def random_history(run, rng, maxdisp):
                 run.do("all")
             k = rng.choice(run.srows[1:])[0]
             one = len(set(q[0] for q in run.sdb)) <= 1
-            run.do("pat:" + ("%s%d" % (rng.choice("nnN"), k[1]) if (one or k[0] > 3 or rng.random() < 0.6) else "f%d" % k[0]))
+            # (the two names of file 6 differ only in letter case: the filter, not case sensitive, lists both -- asked for by file name)
+            run.do("pat:" + ("f%d" % k[0] if k[0] == 6 else
+                             "%s%d" % (rng.choice("nnN"), k[1]) if (one or k[0] > 3 or rng.random() < 0.6) else "f%d" % k[0]))
             run.do(rng.choice(["non", "non", "non", "all", "chk:0:0", "chk:0:1"]))
             if rng.random() < 0.7:
                 run.do("pat:-")
@@ -1332,7 +1342,7 @@ def random_history(run, rng, maxdisp):
         elif r < 0.84:
             run.do("clr")
         elif r < 0.97:
-            fs = rng.choice([[1], [2], [3], [1, 2], [2, 3], [3, 1], [2, 2], [MISSING], [1, MISSING], [4], [5], [4, 5], [5, 3]])
+            fs = rng.choice([[1], [2], [3], [1, 2], [2, 3], [3, 1], [2, 2], [MISSING], [1, MISSING], [4], [5], [4, 5], [5, 3], [6], [6, 2]])
             run.do(("imp:" if rng.random() < 0.85 else "drop:") + ",".join(map(str, fs)))
         else:
             run.do("imp")
